@@ -143,13 +143,47 @@ class TraceTable:
     def __iter__(self) -> Any:
         return iter(self.keys())
 
+    # live iteration: `for k, v in table.items()` in Python code runs bytecode between the items; if
+    # another thread inserts in between, CPython raises RuntimeError (dictionary changed size during
+    # iteration).  The iterator records when it starts and every time it advances; the search knows
+    # the table's size-change counter.  (Consumed by C code in one step -- list(table.items()) --
+    # all of it lands on one step and no preemption fits in between.)
+    def _live(self, pick: Any) -> Any:
+        entries = list(self._snapshot().items())
+        real = getattr(self.o, "real_table", None)
+        if real:
+            for k, v in real.items():
+                if not any(k is kk or self.o._same(k, kk) for kk, _ in entries):
+                    entries.append((k, v))        # some other entry: the loop runs at least twice
+                    break
+        return LiveIter(self.o, [pick(e) for e in entries])
+
     def items(self) -> Any:
-        return list(self._snapshot().items())
+        return self._live(lambda e: e)
+
+    def values(self) -> Any:
+        return self._live(lambda e: e[1])
 
     def _unmodelled(self, *a: Any, **k: Any) -> Any:
         raise HarnessError("the constructor uses a table operation the trace model has no semantics for")
 
-    __delitem__ = pop = popitem = clear = update = values = __len__ = _unmodelled
+    __delitem__ = pop = popitem = clear = update = __len__ = _unmodelled
+
+
+class LiveIter:
+    def __init__(self, owner: "Extraction", entries: List[Any]) -> None:
+        self.o, self.entries, self.i = owner, entries, 0
+        self.o.op(Op("iter_begin"), depth=1)
+
+    def __iter__(self) -> "LiveIter":
+        return self
+
+    def __next__(self) -> Any:
+        self.o.op(Op("iter_next"), depth=1)
+        if self.i >= len(self.entries):
+            raise StopIteration
+        self.i += 1
+        return self.entries[self.i - 1]
 
 
 class Extraction:
@@ -259,6 +293,7 @@ class Extraction:
             return None
 
         saved = self.cls.__dict__["_known"]
+        self.real_table = saved if isinstance(saved, dict) else None
         table = TraceTable(self)
         type.__setattr__(self.cls, "_known", table)
         old = sys.gettrace()
@@ -427,7 +462,10 @@ def search(traces: List[Trace], threads: int, timeout_ms: int = 120000) -> Dict[
     reg = [[[z3.Int(f"reg{t}_{k}_{j}") for j in range(R)] for k in range(threads)] for t in range(horizon + 1)]
     tab = [z3.Int(f"tab{t}") for t in range(horizon + 1)]
     lock = [z3.Int(f"lock{t}") for t in range(horizon + 1)]
-    S.add(tab[0] == 0, lock[0] == 0)
+    ver = [z3.Int(f"ver{t}") for t in range(horizon + 1)]          # how often the table changed size
+    itv = [[z3.Int(f"itv{t}_{k}") for k in range(threads)] for t in range(horizon + 1)]
+    err = [z3.Bool(f"err{t}") for t in range(horizon + 1)]         # some live iteration saw the size change
+    S.add(tab[0] == 0, lock[0] == 0, ver[0] == 0, z3.Not(err[0]), *[itv[0][k] == 0 for k in range(threads)])
     for k in range(threads):
         S.add(path[k] >= 0, path[k] < P, pc[0][k] == 0, *[reg[0][k][j] == 0 for j in range(R)])
 
@@ -438,20 +476,31 @@ def search(traces: List[Trace], threads: int, timeout_ms: int = 120000) -> Dict[
         S.add(sched[t] >= 0, sched[t] < threads)
         for k in range(threads):
             active = sched[t] == k
-            S.add(z3.Implies(z3.Not(active), z3.And(pc[t + 1][k] == pc[t][k],
+            S.add(z3.Implies(z3.Not(active), z3.And(pc[t + 1][k] == pc[t][k], itv[t + 1][k] == itv[t][k],
                                                     *[reg[t + 1][k][j] == reg[t][k][j] for j in range(R)])))
             for p, tr in enumerate(traces):
                 n = len(tr.steps)
                 # a finished thread that is scheduled idles
                 S.add(z3.Implies(z3.And(active, path[k] == p, pc[t][k] >= n),
                                  z3.And(pc[t + 1][k] == pc[t][k], tab[t + 1] == tab[t], lock[t + 1] == lock[t],
+                                        ver[t + 1] == ver[t], err[t + 1] == err[t], itv[t + 1][k] == itv[t][k],
                                         *[reg[t + 1][k][j] == reg[t][k][j] for j in range(R)])))
                 for i, st in enumerate(tr.steps):
                     here = z3.And(active, path[k] == p, pc[t][k] == i)
                     cur = tab[t]
                     regs_now = list(reg[t][k])
                     conds = []
+                    vnow: Any = ver[t]
+                    inow: Any = itv[t][k]
+                    enow: Any = err[t]
                     for o in st.ops:
+                        before_op = cur
+                        if o.kind == "iter_begin":
+                            inow = vnow
+                            continue
+                        if o.kind == "iter_next":
+                            enow = z3.Or(enow, inow != vnow)
+                            continue
                         if o.kind == "publish":
                             cur = z3.IntVal(0) if o.value is None else val(o.value, t, k, regs_now)
                         elif o.kind in ("contains", "getitem", "get", "sd_read", "snapshot"):
@@ -472,6 +521,7 @@ def search(traces: List[Trace], threads: int, timeout_ms: int = 120000) -> Dict[
                             cur = val(o.value, t, k, regs_now)
                         else:
                             raise HarnessError(f"no semantics for {o.kind}")
+                        vnow = vnow + z3.If(z3.And(before_op == 0, cur != 0), 1, 0)
                     # locks
                     if st.acquire:
                         conds.append(z3.Or(lock[t] == 0, lock[t] == k + 1))
@@ -484,7 +534,8 @@ def search(traces: List[Trace], threads: int, timeout_ms: int = 120000) -> Dict[
                     # the trace assumed these answers: a thread on this trace can only be here when
                     # the table really gives them (otherwise it is on another trace)
                     S.add(z3.Implies(here, z3.And(*conds, pc[t + 1][k] == i + 1, tab[t + 1] == cur,
-                                                  lock[t + 1] == lock_after,
+                                                  lock[t + 1] == lock_after, ver[t + 1] == vnow,
+                                                  itv[t + 1][k] == inow, err[t + 1] == enow,
                                                   *[reg[t + 1][k][j] == regs_now[j] for j in range(R)])))
     T = horizon
     done = z3.And(*[z3.Or(*[z3.And(path[k] == p, pc[T][k] >= len(tr.steps)) for p, tr in enumerate(traces)])
@@ -499,7 +550,7 @@ def search(traces: List[Trace], threads: int, timeout_ms: int = 120000) -> Dict[
 
     rets = [ret_of(k) for k in range(threads)]
     differ = z3.Or(*[rets[a] != rets[b] for a in range(threads) for b in range(a + 1, threads)],
-                   *[tab[T] != rets[a] for a in range(threads)])
+                   *[tab[T] != rets[a] for a in range(threads)], err[T])
     t0 = time.time()
     S.push()
     S.add(done)
